@@ -9,10 +9,19 @@
    original pixels; `reg_term u x s eff = |u - s eff x| / (s eff)` is how far the
    image content is from where the decode assumes it to be (0 when nothing is
    resized).  All statements are exact (Q), for all sizes, max_height/width,
-   scales, max strides, output strides, crop sizes. *)
+   scales, max strides, output strides, crop sizes.
+
+   Tree states.  "pinned tree" = /repo before the `fix:` commits; "current tree" = /repo HEAD, which
+   carries the repairs of F8 (cfdac41), F7 (552121e) and F61 (ca9ba93).  The model takes each repair as
+   a flag (si_fixed_F8, `fixed` of td_gt_instance / gt_match); the harness detects the state of the tree
+   by replaying the corpus witnesses and evaluates the matching variant.  Theorems about the
+   un-repaired variants (`..._refuted` for F8, F7, F61, and the `_partial` ones beside them) document
+   the historic defects and stay tied to code only through those witnesses.  F10, F11 and F02z
+   (peak_threshold = 0) are open in the current tree.
+   `_def` in a comment = the statement unfolds a definition of the model (no content beyond it). *)
 From Coq Require Import List ZArith QArith Qabs.
 Import ListNotations.
-From SV Require Import C02.Decode C02.Lemmas.
+From SV Require Import C02.Decode C02.Lemmas C02.LemmasR4.
 Open Scope Q_scope.
 
 (* ---- the grid: nearest cell is within half a cell, exactly when u is in the band *)
@@ -77,14 +86,35 @@ Theorem c02_last_half_cell_band_refuted :
 Proof. exact last_half_cell_band_refuted. Qed.
 Print Assumptions c02_last_half_cell_band_refuted.
 
-(* invisible keypoints: NaN, value 0 *)
-Theorem c02_single_invisible_is_nan : forall c pv kps k,
+(* invisible keypoints: NaN, value 0 — `_partial`: only for peak_threshold > 0 (or after the repair of F02z).
+   The channel of an invisible keypoint is all zero; find_global_peaks_rough masks it by `max < threshold`
+   (model: zero_map_answer).  What is missing for the full clause is refuted below. *)
+Theorem c02_single_invisible_is_nan_partial : forall c pv kps k,
+  thr_masks_zero (si_thr0 c) (si_fixed_Fz c) ->
   nth_error kps k = Some None -> nth_error (si_run c pv kps) k = Some (None, None).
 Proof. exact si_run_invisible. Qed.
-Print Assumptions c02_single_invisible_is_nan.
+Print Assumptions c02_single_invisible_is_nan_partial.
+
+(* F02z (current tree): peak_threshold = 0 — the constructor default of SingleInstanceInferenceModel and
+   FindInstancePeaks — and refinement None: an invisible keypoint is reported AT THE ORIGIN with value 0, not NaN *)
+Theorem c02_single_invisible_zero_threshold_refuted :
+  exists c pv, si_thr0 c = true /\ si_fixed_Fz c = false /\ si_kp c pv None = (Some (0, 0), None).
+Proof. exact si_invisible_thr0_refuted. Qed.
+Print Assumptions c02_single_invisible_zero_threshold_refuted.
+
+(* ... in every configuration: single instance -> (0, 0); top-down -> the crop's own corner in original pixels *)
+Theorem c02_invisible_zero_threshold_answer :
+  (forall c pv, si_thr0 c = true -> si_fixed_Fz c = false -> 0 < si_scale c -> 0 < si_eff c ->
+     exists px py, si_kp c pv None = (Some (px, py), None) /\ px == 0 /\ py == 0) /\
+  (forall c g tlx tly, td_thr0 c = true -> td_fixed_Fz c = false -> 0 < td_si c -> 0 < tg_eff g ->
+     exists px py, td_kp c g tlx tly None = (Some (px, py), None) /\
+       px == tlx / td_si c / tg_eff g /\ py == tly / td_si c / tg_eff g).
+Proof. split; [exact si_invisible_thr0_origin|exact td_invisible_thr0_corner]. Qed.
+Print Assumptions c02_invisible_zero_threshold_answer.
 
 (* ---- provider independence *)
-(* F8: false of the code as pinned (labels-file answer = 2 x the video answer at scale 1/2) *)
+(* F8: false of the PINNED tree (before fix cfdac41; si_fixed_F8 = false): labels-file answer = 2 x the video
+   answer at scale 1/2.  Historic: the current tree is the `_fixed` variant below. *)
 Theorem c02_provider_independence_refuted :
   exists c x y xl yl al xv yv av,
     si_fixed_F8 c = false /\
@@ -94,7 +124,7 @@ Theorem c02_provider_independence_refuted :
 Proof. exact provider_independence_refuted. Qed.
 Print Assumptions c02_provider_independence_refuted.
 
-(* true of the code as pinned when scale = 1 and no stride padding is due *)
+(* true of the pinned tree (before fix cfdac41) when scale = 1 and no stride padding is due *)
 Theorem c02_provider_independence_partial : forall c kps,
   Qeq_bool (si_scale c) 1 = true ->
   (let g := sizematch (si_H c) (si_W c) (si_mh c) (si_mw c) in
@@ -104,7 +134,7 @@ Proof. exact provider_independence_partial. Qed.
 Print Assumptions c02_provider_independence_partial.
 
 (* and unconditionally once make_pipeline sets preprocess = True for LabelsReader
-   (proposed_fixes/C02_F8.diff) *)
+   (proposed_fixes/C02_F8.diff = fix cfdac41: the CURRENT tree) *)
 Theorem c02_provider_independence_fixed : forall c kps,
   si_fixed_F8 c = true -> si_run c LabelsReader kps = si_run c VideoReader kps.
 Proof. exact provider_independence_fixed. Qed.
@@ -128,15 +158,18 @@ Proof. exact td_kp_within. Qed.
 Print Assumptions c02_topdown_instance_stage_bound_any_centroid.
 
 (* one frame end to end: every returned instance belongs to one labelled animal,
-   has NaN/0 for its invisible keypoints and the bound for the visible ones that
-   lie inside its crop *)
+   has NaN/0 for its invisible keypoints (round 4: under peak_threshold > 0 or the repair of
+   F02z — with threshold 0 the crop corner comes back, c02_invisible_zero_threshold_answer) and
+   the bound for the visible ones that lie inside its crop (derived from the input in
+   c02_topdown_animal_end_to_end) *)
 Theorem c02_topdown_frame : forall c ans inst,
   (0 < td_osi c)%Z -> 0 < td_si c -> 0 < tg_eff (td_geom c) ->
   (0 < ncells (tg_nix (td_geom c)) (td_osi c))%Z -> (0 < ncells (tg_niy (td_geom c)) (td_osi c))%Z ->
   In inst (td_frame c ans) ->
   exists an, In an ans /\
     length (ti_pts inst) = length (an_kps an) /\
-    (forall k, nth_error (an_kps an) k = Some None -> nth_error (ti_pts inst) k = Some (None, None)) /\
+    (forall k, thr_masks_zero (td_thr0 c) (td_fixed_Fz c) ->
+       nth_error (an_kps an) k = Some None -> nth_error (ti_pts inst) k = Some (None, None)) /\
     (forall k x y px py a,
        nth_error (an_kps an) k = Some (Some (x, y)) ->
        nth_error (ti_pts inst) k = Some (Some (px, py), Some a) ->
@@ -151,7 +184,9 @@ Theorem c02_topdown_frame : forall c ans inst,
 Proof. exact td_frame_within. Qed.
 Print Assumptions c02_topdown_frame.
 
-(* every animal whose centroid has a peak is returned; nothing is invented *)
+(* every animal whose centroid has a peak is returned; nothing is invented — `_def`: list lemmas about
+   td_frame = sort (somes (map td_instance)); that the peak exists is c02_centroid_is_detected; that distinct animals
+   have distinct peaks (centroid cells >= 3 apart) is a hypothesis of the correspondence, not of a theorem *)
 Theorem c02_topdown_frame_complete : forall c ans an inst,
   In an ans -> td_instance c an = Some inst -> In inst (td_frame c ans).
 Proof. exact td_frame_complete. Qed.
@@ -162,7 +197,8 @@ Proof. exact td_frame_count. Qed.
 Print Assumptions c02_topdown_frame_count.
 
 (* ---- F7: top-down with ground-truth centroids (centroid model = None, LabelsReader) *)
-(* as pinned, the crops are cut before the image is resized: refuted at scale 1/2 (answer ~ 2x) *)
+(* pinned tree (before fix 552121e; fixed = false), historic: the crops are cut before the image is resized:
+   refuted at scale 1/2 (answer ~ 2x) *)
 Theorem c02_topdown_gt_centroids_refuted :
   exists c kps tl pts ms x y px py a,
     td_gt_instance false c kps = Some (tl, pts, ms) /\
@@ -174,7 +210,8 @@ Theorem c02_topdown_gt_centroids_refuted :
 Proof. exact td_gt_refuted. Qed.
 Print Assumptions c02_topdown_gt_centroids_refuted.
 
-(* with the crops cut after resizing (proposed_fixes/C02_F7.diff) the instance-stage bound holds *)
+(* with the crops cut after resizing (proposed_fixes/C02_F7.diff = fix 552121e: the CURRENT tree) the
+   instance-stage bound holds; non-vacuity: ex_gt_centroids_fixed *)
 Theorem c02_topdown_gt_centroids_fixed : forall c kps tl pts ms k x y px py a,
   (0 < td_osi c)%Z -> 0 < td_si c -> 0 < tg_eff (td_geom c) ->
   (0 < ncells (tg_nix (td_geom c)) (td_osi c))%Z -> (0 < ncells (tg_niy (td_geom c)) (td_osi c))%Z ->
@@ -190,7 +227,8 @@ Theorem c02_topdown_gt_centroids_fixed : forall c kps tl pts ms k x y px py a,
 Proof. exact td_gt_fixed_within. Qed.
 Print Assumptions c02_topdown_gt_centroids_fixed.
 
-(* general position is necessary: a centroid exactly between two cells is not detected *)
+(* `_def` (unfolds td_cent_peak): a centroid exactly between two cells is not detected.  The tie branch is
+   not produced by the generator (coordinates stay 1/8 cell from the half-cell lattice) *)
 Theorem c02_plateau_no_local_peak : forall c g cent,
   is_tie (aff_apply (fst (tg_cx g)) (fst cent)) (td_osc c) (ncells (snd (tg_cx g)) (td_osc c)) = true ->
   td_cent_peak c g cent = None.
@@ -221,8 +259,9 @@ Theorem c02_eff_scale_positive : forall H W mh mw,
 Proof. exact sizematch_eff_pos. Qed.
 Print Assumptions c02_eff_scale_positive.
 
-(* ---- latent twin of F7 (unreachable through make_pipeline): the ground-truth-instances
-   branch of _predict_generator calls apply_resizer without the scale *)
+(* ---- latent twin of F7 in the PINNED tree (unreachable through make_pipeline; evaluated nowhere): the
+   ground-truth-instances branch of _predict_generator called apply_resizer without the scale; the current tree
+   passes the scale (fix 552121e) *)
 Theorem c02_gt_path_not_resized_refuted : exists n s, gt_path_resize_dim false n s <> resize_dim n s.
 Proof. exact gt_path_not_resized. Qed.
 Print Assumptions c02_gt_path_not_resized_refuted.
@@ -267,7 +306,7 @@ Theorem c02_centroid_only_centroid_bound : forall c g cent cx cy a,
 Proof. exact co_centroid_within. Qed.
 Print Assumptions c02_centroid_only_centroid_bound.
 
-(* F61: as coded the centroids (original pixels) are compared with instances * eff_scale: at
+(* F61, pinned tree (before fix ca9ba93; fixed = false), historic: the centroids (original pixels) are compared with instances * eff_scale: at
    eff_scale 1/2 the row of animal B's centroid holds animal A's keypoints and B's are never returned *)
 Theorem c02_gt_match_mixed_coordinates_refuted :
   tg_eff (td_geom wit_co) == 1 # 2 /\
@@ -279,7 +318,7 @@ Proof. exact gt_match_mixed_refuted. Qed.
 Print Assumptions c02_gt_match_mixed_coordinates_refuted.
 
 (* the strongest true statement: when the comparison is made in ONE coordinate system — the
-   repaired code (fixed = true, proposed_fixes/C02_F61.diff), or the code as it is with
+   current tree (fixed = true, proposed_fixes/C02_F61.diff = fix ca9ba93), or the pinned tree with
    eff_scale = 1 (fixed = false: the `_partial` reading) — the labelled instance whose nearest
    visible node is strictly nearest to the centroid IN ORIGINAL PIXELS is the one matched, for every
    eff_scale > 0, any number of instances, missing nodes allowed *)
@@ -331,7 +370,7 @@ Theorem c02_centroid_only_frame : forall fixed c ans r,
 Proof. exact co_frame_row. Qed.
 Print Assumptions c02_centroid_only_frame.
 
-(* every animal whose centroid has a peak has its row; nothing is invented *)
+(* every animal whose centroid has a peak has its row; nothing is invented (`_def`, as c02_topdown_frame_complete) *)
 Theorem c02_centroid_only_frame_complete : forall fixed c ans an pk,
   In an ans -> td_cent_peak c (td_geom c) (an_cent an) = Some pk ->
   In (co_row_of fixed c (td_geom c) (map an_kps ans) pk) (co_frame fixed c ans).
@@ -342,8 +381,8 @@ Theorem c02_centroid_only_frame_count : forall fixed c ans, (length (co_frame fi
 Proof. exact co_frame_count. Qed.
 Print Assumptions c02_centroid_only_frame_count.
 
-(* the network always sees 3 channels when is_rgb and 1 when not, for 1- and 3-channel frames; the
-   decode chains above do not take the channel mode as a parameter *)
+(* the network always sees 3 channels when is_rgb and 1 when not, for 1- and 3-channel frames (a 2x2 table);
+   the decode chains above do not take the channel mode as a parameter *)
 Theorem c02_net_channels : forall is_rgb ch, (ch = 1 \/ ch = 3)%Z ->
   net_channels is_rgb ch = if is_rgb then 3%Z else 1%Z.
 Proof. exact net_channels_spec. Qed.
@@ -434,7 +473,8 @@ Theorem c02_batch_stackable : forall mh mw sizes s,
 Proof. exact batch_shapes_uniform. Qed.
 Print Assumptions c02_batch_stackable.
 
-(* the zip: sample b is decoded with entry b of the list handed over, whatever it holds *)
+(* the zip: sample b is decoded with entry b of the list handed over, whatever it holds (`_def`: unfolds the
+   combine + map of si_batch_with / td_batch_with; the content is in the `_is_per_frame` theorems below) *)
 Theorem c02_batch_sample_uses_its_entry : forall c pv effs fs b f e,
   nth_error fs b = Some f -> nth_error effs b = Some e ->
   nth_error (si_batch_with c pv effs fs) b
@@ -473,11 +513,13 @@ Theorem c02_single_batch_decode_bound : forall c pv fs b f row k x y px py a,
 Proof. exact si_batch_within. Qed.
 Print Assumptions c02_single_batch_decode_bound.
 
-Theorem c02_single_batch_invisible_is_nan : forall c pv fs b f row k,
+(* `_partial`: peak_threshold > 0 or F02z repaired (see c02_single_invisible_is_nan_partial) *)
+Theorem c02_single_batch_invisible_is_nan_partial : forall c pv fs b f row k,
+  thr_masks_zero (si_thr0 c) (si_fixed_Fz c) ->
   nth_error fs b = Some f -> nth_error (si_batch c pv fs) b = Some row ->
   nth_error (sf_kps f) k = Some None -> nth_error row k = Some (None, None).
 Proof. exact si_batch_invisible. Qed.
-Print Assumptions c02_single_batch_invisible_is_nan.
+Print Assumptions c02_single_batch_invisible_is_nan_partial.
 
 (* top-down: the same, crops / bbox re-addition included *)
 Theorem c02_topdown_batch_is_per_frame : forall c fs,
@@ -492,7 +534,8 @@ Theorem c02_topdown_batch_decode_bound : forall c fs b f row inst,
   (0 < ncells (tg_nix (td_geom c')) (td_osi c'))%Z -> (0 < ncells (tg_niy (td_geom c')) (td_osi c'))%Z ->
   exists an, In an (tf_animals f) /\
     length (ti_pts inst) = length (an_kps an) /\
-    (forall k, nth_error (an_kps an) k = Some None -> nth_error (ti_pts inst) k = Some (None, None)) /\
+    (forall k, thr_masks_zero (td_thr0 c) (td_fixed_Fz c) ->
+       nth_error (an_kps an) k = Some None -> nth_error (ti_pts inst) k = Some (None, None)) /\
     (forall k x y px py a,
        nth_error (an_kps an) k = Some (Some (x, y)) ->
        nth_error (ti_pts inst) k = Some (Some (px, py), Some a) ->
@@ -526,10 +569,12 @@ Theorem c02_foreign_eff_scale_factor : forall cx os s e e' tl, 0 < s -> 0 < e ->
 Proof. intros. split; [now apply si_decode_foreign|now apply td_decode_foreign]. Qed.
 Print Assumptions c02_foreign_eff_scale_factor.
 
-(* "one factor for the whole batch" (the factor of the last frame read) is refuted: a 32x32 and a 64x64
+(* `_alternative_refuted`: unlike the other `_refuted` theorems this one is not about a tree state; it refutes a
+   construction no tree ever had (it exists as seeded change C02_m5 only).
+   "one factor for the whole batch" (the factor of the last frame read) is refuted: a 32x32 and a 64x64
    frame matched to 64x64 in one batch; the small frame's keypoint (10, 12) comes back as (20, 24),
    although it is in the band; the list the code builds returns (10, 12) *)
-Theorem c02_one_factor_per_batch_refuted :
+Theorem c02_one_factor_per_batch_alternative_refuted :
   exists c fs f x y px py a,
     nth_error fs 0 = Some f /\ nth_error (sf_kps f) 0 = Some (Some (x, y)) /\
     nth_error (si_batch_with c VideoReader (last_eff_for_all (si_mh c) (si_mw c) (map sf_size fs)) fs) 0
@@ -541,10 +586,11 @@ Theorem c02_one_factor_per_batch_refuted :
                         + reg_term (si_ux c' VideoReader x) x (si_scale c') (si_eff c')) /\
     (exists qx qy, nth_error (si_batch c VideoReader fs) 0 = Some [(Some (qx, qy), Some a)] /\ qx == x /\ qy == y).
 Proof. exact one_factor_per_batch_refuted. Qed.
-Print Assumptions c02_one_factor_per_batch_refuted.
+Print Assumptions c02_one_factor_per_batch_alternative_refuted.
 
 (* non-square crops: the crop geometry per axis — the centroid cell sits at the crop centre, width for
-   x and height for y; the network input is the crop padded per axis *)
+   x and height for y; the network input is the crop padded per axis (conjuncts 3-4 are `_def`); used by
+   c02_keypoint_inside_its_crop *)
 Theorem c02_crop_geometry_per_axis : forall c g cx cy a kps,
   let i := td_instance_at c g cx cy a kps in
   fst (ti_tl i) + (inject_Z (td_cw c) - 1) / 2 == inject_Z cx * inject_Z (td_osc c) / td_sc c * td_si c /\
@@ -570,7 +616,7 @@ Qed.
 Definition wit_td_nonsquare : td_cfg :=
   {| td_H := 96; td_W := 120; td_mh := Some 128%Z; td_mw := Some 128%Z; td_sc := 1 # 2; td_si := 3 # 4;
      td_msc := 16; td_msi := 16; td_osc := 2; td_osi := 2; td_ch := 32; td_cw := 64;
-     td_sigma := 3 # 2; td_lthr := - (1609438 # 1000000) |}.
+     td_sigma := 3 # 2; td_lthr := - (1609438 # 1000000); td_thr0 := false; td_fixed_Fz := false |}.
 Example ex_topdown_nonsquare_crop :
   (tg_nix (td_geom wit_td_nonsquare), tg_niy (td_geom wit_td_nonsquare)) = (64%Z, 32%Z) /\
   exists inst, td_frame wit_td_nonsquare [wit_animal] = [inst] /\
@@ -583,4 +629,250 @@ Example ex_topdown_nonsquare_crop :
 Proof.
   split; [vm_compute; reflexivity|]. eexists. split; [vm_compute; reflexivity|].
   split; [vm_compute; reflexivity|split; split; vm_compute; discriminate].
+Qed.
+
+(* ================================================================== round 4 (review notes/review/C02.md; proofs C02/LemmasR4.v)
+   1. every visible in-band keypoint IS returned;  2. the registration term in closed form, so that "all sizes /
+   max_height,max_width / scales / stride padding" is covered by a theorem about sizematch, resize_dim and
+   pad_to_stride and not parametrically;  3. "the keypoint lies inside its crop" derived;  4. one animal end to end
+   with hypotheses on the input only. *)
+
+(* ---- 1. returned.  arg_floor sigma = -1/(4 sigma^2): the ideal map at the cell nearest to its centre is at least
+   exp (arg_floor sigma) (centre at most half a cell away per axis).  A threshold not above that value (or
+   threshold 0) lets every visible in-band keypoint through: the model answers Some. *)
+Theorem c02_peak_value_floor : forall dx dy sigma os, (0 < os)%Z -> 0 < sigma ->
+  Qabs dx <= inject_Z os / 2 -> Qabs dy <= inject_Z os / 2 -> arg_floor sigma <= peak_arg dx dy sigma os.
+Proof. exact peak_arg_lower. Qed.
+Print Assumptions c02_peak_value_floor.
+
+Theorem c02_single_visible_is_returned : forall c pv x y,
+  (0 < si_os c)%Z -> 0 < si_sigma c -> (0 < si_ncx c pv)%Z -> (0 < si_ncy c pv)%Z ->
+  (si_thr0 c = true \/ si_lthr c <= arg_floor (si_sigma c)) ->
+  in_band (si_ux c pv x) (si_os c) (si_ncx c pv) ->
+  in_band (si_uy c pv y) (si_os c) (si_ncy c pv) ->
+  exists px py a, si_kp c pv (Some (x, y)) = (Some (px, py), Some a) /\ arg_floor (si_sigma c) <= a.
+Proof. exact si_kp_returned. Qed.
+Print Assumptions c02_single_visible_is_returned.
+
+Theorem c02_topdown_visible_is_returned : forall c g tlx tly x y,
+  (0 < td_osi c)%Z -> 0 < td_sigma c ->
+  (0 < ncells (tg_nix g) (td_osi c))%Z -> (0 < ncells (tg_niy g) (td_osi c))%Z ->
+  (td_thr0 c = true \/ td_lthr c <= arg_floor (td_sigma c)) ->
+  in_band (aff_apply (tg_px g) x - tlx) (td_osi c) (ncells (tg_nix g) (td_osi c)) ->
+  in_band (aff_apply (tg_py g) y - tly) (td_osi c) (ncells (tg_niy g) (td_osi c)) ->
+  exists px py a, td_kp c g tlx tly (Some (x, y)) = (Some (px, py), Some a) /\ arg_floor (td_sigma c) <= a.
+Proof. exact td_kp_returned. Qed.
+Print Assumptions c02_topdown_visible_is_returned.
+
+(* the centroid stage (strict local maximum, `cms > threshold`): in the band and not exactly between two cells
+   => detected, at the nearest cell *)
+Theorem c02_centroid_is_detected : forall c g cent,
+  (0 < td_osc c)%Z -> 0 < td_sigma c ->
+  (0 < ncells (snd (tg_cx g)) (td_osc c))%Z -> (0 < ncells (snd (tg_cy g)) (td_osc c))%Z ->
+  (td_thr0 c = true \/ td_lthr c < arg_floor (td_sigma c)) ->
+  in_band (aff_apply (fst (tg_cx g)) (fst cent)) (td_osc c) (ncells (snd (tg_cx g)) (td_osc c)) ->
+  in_band (aff_apply (fst (tg_cy g)) (snd cent)) (td_osc c) (ncells (snd (tg_cy g)) (td_osc c)) ->
+  is_tie (aff_apply (fst (tg_cx g)) (fst cent)) (td_osc c) (ncells (snd (tg_cx g)) (td_osc c)) = false ->
+  is_tie (aff_apply (fst (tg_cy g)) (snd cent)) (td_osc c) (ncells (snd (tg_cy g)) (td_osc c)) = false ->
+  exists a, td_cent_peak c g cent
+            = Some (nearest_cell (aff_apply (fst (tg_cx g)) (fst cent)) (td_osc c) (ncells (snd (tg_cx g)) (td_osc c)),
+                    nearest_cell (aff_apply (fst (tg_cy g)) (snd cent)) (td_osc c) (ncells (snd (tg_cy g)) (td_osc c)), a)
+            /\ arg_floor (td_sigma c) <= a.
+Proof. exact td_cent_peak_returned. Qed.
+Print Assumptions c02_centroid_is_detected.
+
+(* ---- 2. the registration term, closed.
+   (a) Python's round() moves by at most 1/2; (b) every content map of the model has the half-pixel-centre form
+   u = a x + (a - 1)/2 (so reg_term = |(a - s eff) x + (a - 1)/2| / (s eff)); (c) the slope a of "size matching,
+   then resize_image" differs from scale * eff_scale by at most (1 + s/2)/n on an axis of n pixels (round() of the
+   matched size: 1/2 px; int() of the resized size: < 1 px; eff_scale * n <= matched size); hence
+   reg_term <= reg_closed s eff n = (|1 - s eff|/2 + (1 + s/2)(1 + 1/(2n))) / (s eff) for every pixel of the axis.
+   Closed, not tight: at s = eff = 1 it is < 1.52 px where the exact value is 0 (c02_single_half_cell_partial). *)
+Theorem c02_round_half_even_close : forall q, Qabs (inject_Z (round_half_even q) - q) <= 1 # 2.
+Proof. exact round_half_even_close. Qed.
+Print Assumptions c02_round_half_even_close.
+
+Theorem c02_sizematch_axes : forall H W mh mw, (0 < H)%Z -> (0 < W)%Z -> maxes_pos mh mw ->
+  let g := sizematch H W mh mw in
+  (0 < sm_w g)%Z /\ (0 < sm_h g)%Z /\ 0 < sm_eff g /\
+  Qabs (sm_r1 W (sm_tw g) (sm_resized g) - sm_eff g) * inject_Z W <= 1 # 2 /\
+  Qabs (sm_r1 H (sm_th g) (sm_resized g) - sm_eff g) * inject_Z H <= 1 # 2 /\
+  inject_Z W * sm_eff g <= inject_Z (sm_w g) /\
+  inject_Z H * sm_eff g <= inject_Z (sm_h g).
+Proof. exact sizematch_axes. Qed.
+Print Assumptions c02_sizematch_axes.
+
+Theorem c02_content_map_slopes :
+  (forall c pv, si_cfg_ok c -> preprocess_flag (si_fixed_F8 c) pv = true ->
+     0 < si_eff c /\
+     Qabs (fst (fst (si_gx c pv)) - si_scale c * si_eff c) * inject_Z (si_W c) <= 1 + si_scale c / 2 /\
+     Qabs (fst (fst (si_gy c pv)) - si_scale c * si_eff c) * inject_Z (si_H c) <= 1 + si_scale c / 2) /\
+  (forall c, td_cfg_ok c ->
+     let g := td_geom c in
+     0 < tg_eff g /\
+     Qabs (fst (tg_px g) - td_si c * tg_eff g) * inject_Z (td_W c) <= 1 + td_si c / 2 /\
+     Qabs (fst (tg_py g) - td_si c * tg_eff g) * inject_Z (td_H c) <= 1 + td_si c / 2 /\
+     Qabs (fst (fst (tg_cx g)) - td_sc c * tg_eff g) * inject_Z (td_W c) <= 1 + td_sc c / 2 /\
+     Qabs (fst (fst (tg_cy g)) - td_sc c * tg_eff g) * inject_Z (td_H c) <= 1 + td_sc c / 2).
+Proof. split; [exact si_slopes|exact td_slopes]. Qed.
+Print Assumptions c02_content_map_slopes.
+
+Theorem c02_registration_closed_single : forall c pv x y,
+  si_cfg_ok c -> preprocess_flag (si_fixed_F8 c) pv = true ->
+  0 <= x -> x <= inject_Z (si_W c) - 1 -> 0 <= y -> y <= inject_Z (si_H c) - 1 ->
+  reg_term (si_ux c pv x) x (si_scale c) (si_eff c) <= reg_closed (si_scale c) (si_eff c) (si_W c) /\
+  reg_term (si_uy c pv y) y (si_scale c) (si_eff c) <= reg_closed (si_scale c) (si_eff c) (si_H c).
+Proof. exact si_reg_closed. Qed.
+Print Assumptions c02_registration_closed_single.
+
+Theorem c02_registration_closed_topdown : forall c x y, td_cfg_ok c ->
+  0 <= x -> x <= inject_Z (td_W c) - 1 -> 0 <= y -> y <= inject_Z (td_H c) - 1 ->
+  let g := td_geom c in
+  reg_term (aff_apply (tg_px g) x) x (td_si c) (tg_eff g) <= reg_closed (td_si c) (tg_eff g) (td_W c) /\
+  reg_term (aff_apply (tg_py g) y) y (td_si c) (tg_eff g) <= reg_closed (td_si c) (tg_eff g) (td_H c) /\
+  reg_term (aff_apply (fst (tg_cx g)) x) x (td_sc c) (tg_eff g) <= reg_closed (td_sc c) (tg_eff g) (td_W c) /\
+  reg_term (aff_apply (fst (tg_cy g)) y) y (td_sc c) (tg_eff g) <= reg_closed (td_sc c) (tg_eff g) (td_H c).
+Proof. exact td_reg_closed. Qed.
+Print Assumptions c02_registration_closed_topdown.
+
+(* clause 1 for the model with nothing about the answer assumed and no uninterpreted term: a visible keypoint inside
+   the image and inside the band of the grid IS returned, within half a cell + reg_closed original pixels; every
+   H, W, max_height, max_width, scale, max_stride, output stride; every provider whose frames are preprocessed
+   (current tree: both) *)
+Theorem c02_single_visible_returned_within_closed : forall c pv x y,
+  si_cfg_ok c -> preprocess_flag (si_fixed_F8 c) pv = true ->
+  (0 < si_os c)%Z -> 0 < si_sigma c -> (0 < si_ncx c pv)%Z -> (0 < si_ncy c pv)%Z ->
+  (si_thr0 c = true \/ si_lthr c <= arg_floor (si_sigma c)) ->
+  0 <= x -> x <= inject_Z (si_W c) - 1 -> 0 <= y -> y <= inject_Z (si_H c) - 1 ->
+  in_band (si_ux c pv x) (si_os c) (si_ncx c pv) ->
+  in_band (si_uy c pv y) (si_os c) (si_ncy c pv) ->
+  exists px py a, si_kp c pv (Some (x, y)) = (Some (px, py), Some a) /\
+    Qabs (px - x) <= half_cell (si_os c) (si_scale c) (si_eff c) + reg_closed (si_scale c) (si_eff c) (si_W c) /\
+    Qabs (py - y) <= half_cell (si_os c) (si_scale c) (si_eff c) + reg_closed (si_scale c) (si_eff c) (si_H c).
+Proof. exact si_kp_closed. Qed.
+Print Assumptions c02_single_visible_returned_within_closed.
+
+(* ---- 3. the keypoint lies inside its crop (one axis; `crop` = td_cw for x, td_ch for y): the centroid cell is
+   within half a centroid cell of the centroid's content position; a keypoint whose distance from the centroid + both
+   registration terms + half a centroid cell (original pixels) fits into half the crop less half an instance cell is in
+   the band of the crop's grid, stride padding of the crop included.  Uses td_topleft (make_centered_bboxes). *)
+Theorem c02_keypoint_inside_its_crop : forall (cell osc osi crop msi : Z) (sc si eff x cx : Q) (mp mc : aff),
+  (0 < osi)%Z -> (0 <= crop)%Z -> 0 < sc -> 0 < si -> 0 < eff ->
+  Qabs (inject_Z cell * inject_Z osc - aff_apply mc cx) <= inject_Z osc / 2 ->
+  Qabs (x - cx) + reg_term (aff_apply mp x) x si eff + reg_term (aff_apply mc cx) cx sc eff + half_cell osc sc eff
+    <= ((inject_Z crop - 1 - inject_Z osi) / 2) / (si * eff) ->
+  in_band (aff_apply mp x - td_topleft cell osc sc si crop) osi (ncells (pad_to_stride crop msi) osi).
+Proof. exact kp_inside_crop. Qed.
+Print Assumptions c02_keypoint_inside_its_crop.
+
+(* ---- 4. clause 4 end to end for one animal, hypotheses on the input only *)
+Theorem c02_topdown_animal_end_to_end : forall c an,
+  td_cfg_ok c -> (0 < td_osc c)%Z -> (0 < td_osi c)%Z -> 0 < td_sigma c ->
+  (0 <= td_cw c)%Z -> (0 <= td_ch c)%Z ->
+  let g := td_geom c in
+  (0 < ncells (snd (tg_cx g)) (td_osc c))%Z -> (0 < ncells (snd (tg_cy g)) (td_osc c))%Z ->
+  (0 < ncells (tg_nix g) (td_osi c))%Z -> (0 < ncells (tg_niy g) (td_osi c))%Z ->
+  (td_thr0 c = true \/ td_lthr c < arg_floor (td_sigma c)) ->
+  0 <= fst (an_cent an) -> fst (an_cent an) <= inject_Z (td_W c) - 1 ->
+  0 <= snd (an_cent an) -> snd (an_cent an) <= inject_Z (td_H c) - 1 ->
+  in_band (aff_apply (fst (tg_cx g)) (fst (an_cent an))) (td_osc c) (ncells (snd (tg_cx g)) (td_osc c)) ->
+  in_band (aff_apply (fst (tg_cy g)) (snd (an_cent an))) (td_osc c) (ncells (snd (tg_cy g)) (td_osc c)) ->
+  is_tie (aff_apply (fst (tg_cx g)) (fst (an_cent an))) (td_osc c) (ncells (snd (tg_cx g)) (td_osc c)) = false ->
+  is_tie (aff_apply (fst (tg_cy g)) (snd (an_cent an))) (td_osc c) (ncells (snd (tg_cy g)) (td_osc c)) = false ->
+  exists inst, td_instance c an = Some inst /\ length (ti_pts inst) = length (an_kps an) /\
+    forall k x y, nth_error (an_kps an) k = Some (Some (x, y)) ->
+      0 <= x -> x <= inject_Z (td_W c) - 1 -> 0 <= y -> y <= inject_Z (td_H c) - 1 ->
+      Qabs (x - fst (an_cent an)) + reg_closed (td_si c) (tg_eff g) (td_W c) + reg_closed (td_sc c) (tg_eff g) (td_W c)
+        + half_cell (td_osc c) (td_sc c) (tg_eff g) <= crop_room (td_cw c) (td_osi c) (td_si c) (tg_eff g) ->
+      Qabs (y - snd (an_cent an)) + reg_closed (td_si c) (tg_eff g) (td_H c) + reg_closed (td_sc c) (tg_eff g) (td_H c)
+        + half_cell (td_osc c) (td_sc c) (tg_eff g) <= crop_room (td_ch c) (td_osi c) (td_si c) (tg_eff g) ->
+      exists px py a, nth_error (ti_pts inst) k = Some (Some (px, py), Some a) /\
+        Qabs (px - x) <= half_cell (td_osi c) (td_si c) (tg_eff g) + reg_closed (td_si c) (tg_eff g) (td_W c) /\
+        Qabs (py - y) <= half_cell (td_osi c) (td_si c) (tg_eff g) + reg_closed (td_si c) (tg_eff g) (td_H c).
+Proof. exact td_animal_end_to_end. Qed.
+Print Assumptions c02_topdown_animal_end_to_end.
+
+(* ---- non-vacuity of the round-4 theorems: all hypotheses are discharged on concrete configurations *)
+Ltac le_c := vm_compute; discriminate.
+Example ex_single_closed :
+  exists px py a, si_kp wit_f8 VideoReader (Some (40, 24)) = (Some (px, py), Some a) /\
+    Qabs (px - 40) <= half_cell (si_os wit_f8) (si_scale wit_f8) (si_eff wit_f8)
+                      + reg_closed (si_scale wit_f8) (si_eff wit_f8) (si_W wit_f8) /\
+    reg_closed (si_scale wit_f8) (si_eff wit_f8) (si_W wit_f8) == 773 # 256.
+Proof.
+  destruct (c02_single_visible_returned_within_closed wit_f8 VideoReader 40 24) as [px [py [a [E [Bx _]]]]].
+  - repeat split; try (vm_compute; reflexivity); intros v Hv; discriminate.
+  - reflexivity.
+  - reflexivity.
+  - reflexivity.
+  - reflexivity.
+  - reflexivity.
+  - right. le_c.
+  - le_c.
+  - le_c.
+  - le_c.
+  - le_c.
+  - split; le_c.
+  - split; le_c.
+  - exists px, py, a. split; [exact E|]. split; [exact Bx|]. vm_compute. reflexivity.
+Qed.
+
+Example ex_topdown_end_to_end :
+  exists inst, td_instance wit_td wit_animal = Some inst /\
+    exists px py a, nth_error (ti_pts inst) 0 = Some (Some (px, py), Some a) /\
+      Qabs (px - 40) <= half_cell (td_osi wit_td) (td_si wit_td) (tg_eff (td_geom wit_td))
+                        + reg_closed (td_si wit_td) (tg_eff (td_geom wit_td)) (td_W wit_td).
+Proof.
+  destruct (c02_topdown_animal_end_to_end wit_td wit_animal) as [inst [E [_ Hk]]].
+  - repeat split; try (vm_compute; reflexivity); intros v Hv; inversion Hv; subst; reflexivity.
+  - reflexivity.
+  - reflexivity.
+  - reflexivity.
+  - le_c.
+  - le_c.
+  - reflexivity.
+  - reflexivity.
+  - reflexivity.
+  - reflexivity.
+  - right. vm_compute. reflexivity.
+  - le_c.
+  - le_c.
+  - le_c.
+  - le_c.
+  - split; le_c.
+  - split; le_c.
+  - vm_compute. reflexivity.
+  - vm_compute. reflexivity.
+  - exists inst. split; [exact E|].
+    destruct (Hk 0%nat 40 24) as [px [py [a [Ep [Bx _]]]]].
+    + reflexivity.
+    + le_c.
+    + le_c.
+    + le_c.
+    + le_c.
+    + le_c.
+    + le_c.
+    + exists px, py, a. split; [exact Ep|exact Bx].
+Qed.
+
+(* the repaired ground-truth-centroid branch (current tree) meets the hypotheses of c02_topdown_gt_centroids_fixed *)
+Example ex_gt_centroids_fixed :
+  exists tl pts ms, td_gt_instance true wit_gt [Some (30, 24); Some (36, 30)] = Some (tl, pts, ms) /\
+    (exists px py a, nth_error pts 0 = Some (Some (px, py), Some a) /\ px == 30 /\ py == 24) /\
+    in_band (aff_apply (tg_px (td_geom wit_gt)) 30 - fst tl) (td_osi wit_gt) (ncells (tg_nix (td_geom wit_gt)) (td_osi wit_gt)).
+Proof.
+  eexists. eexists. eexists. split; [vm_compute; reflexivity|].
+  split; [eexists; eexists; eexists; split; [vm_compute; reflexivity|split; vm_compute; reflexivity]|split; vm_compute; discriminate].
+Qed.
+
+(* F02z: threshold 0 — visible keypoints are unaffected (the witness of ex_single_witness), the repaired
+   variant answers NaN / 0 *)
+Example ex_zero_threshold :
+  (exists px py a, si_kp wit_thr0 VideoReader (Some (40, 24)) = (Some (px, py), Some a) /\ px == 40 /\ py == 24) /\
+  si_kp {| si_H := 64; si_W := 64; si_mh := None; si_mw := None; si_scale := 1; si_ms := 1; si_os := 2;
+           si_sigma := 3 # 2; si_lthr := 0; si_fixed_F8 := true; si_thr0 := true; si_fixed_Fz := true |}
+        VideoReader None = (None, None).
+Proof.
+  split; [|reflexivity].
+  eexists. eexists. eexists. split; [vm_compute; reflexivity|split; vm_compute; reflexivity].
 Qed.
